@@ -50,7 +50,7 @@ APPLICABLE = {
     "write": ["crash_before", "crash_after", "oserror", "short_write"],
     "rename": ["crash_before", "crash_after", "oserror"], "replace": ["crash_before", "crash_after", "oserror"], "unlink": ["crash_before", "crash_after", "oserror"],
     "fsync": ["crash_before", "oserror"],
-    "fmt_black": ["crash_before", "fmt_raise", "fmt_black_truncated"], "fmt_cmd": ["crash_before", "fmt_exit1", "fmt_garbage", "fmt_empty", "fmt_killed"],
+    "fmt_black": ["crash_before", "fmt_raise", "fmt_black_truncated"], "fmt_cmd": ["crash_before", "fmt_exit1", "fmt_garbage", "fmt_empty", "fmt_killed", "fmt_exit1_partial", "fmt_nonutf8"],
 }
 IMPORTANT = {"open_trunc", "open_write", "write", "write_text", "write_bytes", "rename", "replace", "unlink", "fmt_black", "fmt_cmd"}
 
@@ -226,7 +226,9 @@ def execute(case, ctx):
                     viol("I2-dangling-external", f"reference-unresolvable-after-restart:{act}@{kind}",
                          f"{where}: {fn} references external({r[3]!r}) but after the next session start the storage holds {sorted(lst)}")
         # ---- I3: formatter failure degrades to unformatted but correct code plus a reported problem
-        if act in ("fmt_raise", "fmt_exit1"):
+        # (every failure of the format-command, whatever its exit status, and an exception of black; black *returning* broken text is not a failure
+        #  the library can tell from an answer before it parses the file - there only file integrity is demanded)
+        if act in ("fmt_raise", "fmt_exit1", "fmt_exit1_partial", "fmt_garbage", "fmt_empty", "fmt_nonutf8", "fmt_killed"):
             if not sim.session_completed("plugin", res):
                 viol("I3-formatter-degrades", f"session-aborted-by-formatter-failure:{act}", f"{where}\n{(res.get('finish_exc') or res.get('main_exc') or res.get('out', ''))[-1200:]}")
             else:
